@@ -32,6 +32,54 @@ def consumers_table(repo):
     raise AnalysisError("Tokenizer.parse: consumers table not found")
 
 
+def check_reader_quoting(repo, rep, cons):
+    """The reader's quoting of row/column names (CellRange.expand_ref) against what the tokenizer accepts.
+
+    Tokenizer side: a quoted name must be one match of the single-quote pattern (embedded quotes doubled) and a name
+    that starts with '#' is read as an error code.  Reader side: which names are put in quotes, and how an embedded
+    quote is written.  The facts are read from the two sources; the pattern is exercised as data with the re module."""
+    import re as _re
+    Q = chr(39)
+    ex = repo.func("xrefs.py", "CellRange.expand_ref")
+    regs = repo.module_assign("tokenizer.py", "Tokenizer.STRING_REGEXES")
+    keys = [try_const(k) for k in regs.keys]
+    pat = try_const(regs.values[keys.index(Q)].args[0]) if Q in keys else None
+    if not isinstance(pat, str):
+        raise AnalysisError("Tokenizer.STRING_REGEXES: single-quote pattern is not a literal")
+    rx = _re.compile(pat)
+    needs_doubling = rx.fullmatch(Q + "it" + Q + "s" + Q) is None and rx.fullmatch(Q + "it" + Q + Q + "s" + Q) is not None
+    # (a) the wrapped form
+    wraps = [n for n in body_walk(ex) if isinstance(n, ast.Assign) and isinstance(n.value, ast.JoinedStr) and len(n.value.values) == 3
+             and all(isinstance(n.value.values[i], ast.Constant) and n.value.values[i].value == Q for i in (0, 2)) and isinstance(n.value.values[1], ast.FormattedValue)]
+    if not wraps:
+        raise AnalysisError("expand_ref: the statement that puts a name in quotes was not found")
+    inner = wraps[0].value.values[1].value
+    doubled = isinstance(inner, ast.Call) and last_attr(inner.func) == "replace" and [try_const(a) for a in inner.args] == [Q, Q + Q]
+    ok = doubled or not needs_doubling
+    rep.ob("C18.R4", wraps[0], "a name the reader puts in quotes has its embedded quotes doubled, as the tokenizer's quoted-name pattern requires", ok,
+           "" if ok else f"the name is wrapped as it is: a header named it{Q}s-x is printed {Q}it{Q}s-x{Q}, which the tokenizer rejects (TokenizerError)", key="C18.R4@quoting:embedded-quote-in-quoted-name")
+    # (b) a name with a quote but no operator character
+    triples = [n for n in body_walk(ex) if isinstance(n, ast.Call) and last_attr(n.func) == "replace" and [try_const(a) for a in n.args] == [Q, Q * 3]]
+    bare = bool(triples) and not any(t is x for w in wraps for t in triples for x in ast.walk(w))
+    rep.ob("C18.R4", triples[0] if triples else ex, "a name that contains a quote is printed as a quoted name", not bare,
+           "" if not bare else f"the quote is tripled and the name left unquoted: a header named it{Q}s is printed it{Q * 3}s, which the tokenizer rejects (TokenizerError)",
+           key="C18.R4@quoting:bare-quote")
+    # (c) names that start with a character the tokenizer reads as something else
+    trig = [n for n in body_walk(ex) if isinstance(n, ast.Call) and call_name(n) == "any" and "OPERATOR_PRECEDENCE" in U(n)]
+    if not trig:
+        raise AnalysisError("expand_ref: the test that decides whether a name is quoted was not found")
+    try:
+        opchars = set(ast.literal_eval(U(repo.module_assign("constants.py", "OPERATOR_PRECEDENCE"))).keys())
+    except Exception as e:  # noqa: BLE001
+        raise AnalysisError(f"constants.py: OPERATOR_PRECEDENCE is not a literal table ({e})") from e
+    hash_consumer = next((m for chars, m in cons if isinstance(chars, str) and "#" in chars), None)
+    rejects = hash_consumer == "parse_error"
+    ok = "#" in opchars or not rejects
+    rep.ob("C18.R4", trig[0], "a name beginning with '#' is quoted (the tokenizer reads '#' as the start of an error code)", ok,
+           "" if ok else "'#' is not among the characters that make the reader quote a name: a header named #x is printed #x, which the tokenizer rejects as an invalid error code (TokenizerError)",
+           key="C18.R4@quoting:hash-name")
+
+
 def run(repo, rep, tier):
     cons, cons_node = consumers_table(repo)
     methods = repo.methods("tokenizer.py", "Tokenizer")
@@ -342,6 +390,7 @@ def run(repo, rep, tier):
                "" if ok else f"{bad}: a doubled quote directly followed by the closing quote ends the match early and the quoted text is split across tokens", key=f"C18.R4@regex-runs:{'dq' if delim == chr(34) else 'sq'}")
     ok = "formula_str.translate(OPERATOR_MAP)" in U(repo.func("formula.py", "Formula.formula_tokens"))
     rep.ob("C18.R4", repo.func("formula.py", "Formula.formula_tokens"), "writer normalises typographic operators before tokenizing", ok, "", key="C18.R4@translate")
+    rep.sub(check_reader_quoting, repo, rep, cons)
     rep.floor("C18.R1", 6)
     rep.floor("C18.R2", 12)
     rep.floor("C18.R3", 18)
